@@ -53,8 +53,18 @@ def run(prog, ctx):
                     ch = R.attr_chain(side)
                     if ch and len(ch) == 2 and ch[0] == enum_name:
                         handled.add(ch[1])
+            table = None
             if isinstance(n, ast.Dict):
-                for k in n.keys:
+                table = n
+            elif isinstance(n, ast.Attribute) and fi.cls is not None and isinstance(n.value, ast.Name) \
+                    and n.value.id in (fi.self_name, fi.cls.name) and isinstance(fi.cls.class_attrs.get(n.attr), ast.Dict):
+                table = fi.cls.class_attrs[n.attr]              # dispatch table kept as a class attribute
+            elif isinstance(n, ast.Name) and isinstance(getattr(fi.module, "tree", None), ast.Module):
+                for st_ in fi.module.tree.body:
+                    if isinstance(st_, ast.Assign) and any(isinstance(t_, ast.Name) and t_.id == n.id for t_ in st_.targets) and isinstance(st_.value, ast.Dict):
+                        table = st_.value                       # ... or as a module-level constant
+            if table is not None:
+                for k in table.keys:
                     ch = R.attr_chain(k) if k is not None else None
                     if ch and len(ch) == 2 and ch[0] == enum_name:
                         handled.add(ch[1])
